@@ -449,7 +449,7 @@ pub fn constants(report: &Report) {
     if wow_srp::LARGE_SAFE_PRIME_LITTLE_ENDIAN != n || wow_srp::LARGE_SAFE_PRIME_BIG_ENDIAN != be || wow_srp::GENERATOR != 7 {
         viol(report, "constants", json!({}), "N (either byte order) or g differ from the protocol constants".into());
     }
-    if wow_srp::LARGE_SAFE_PRIME_LENGTH != 32 || wow_srp::PUBLIC_KEY_LENGTH != 32 || wow_srp::SALT_LENGTH != 32 || wow_srp::PROOF_LENGTH != 20 || wow_srp::SESSION_KEY_LENGTH != 40 || wow_srp::PASSWORD_VERIFIER_LENGTH != 32 || wow_srp::RECONNECT_CHALLENGE_DATA_LENGTH != 16 {
+    if wow_srp::LARGE_SAFE_PRIME_LENGTH != 32 || wow_srp::PUBLIC_KEY_LENGTH != 32 || wow_srp::SALT_LENGTH != 32 || wow_srp::PROOF_LENGTH != 20 || wow_srp::SESSION_KEY_LENGTH != 40 || wow_srp::PASSWORD_VERIFIER_LENGTH != 32 || wow_srp::RECONNECT_CHALLENGE_DATA_LENGTH != 16 || wow_srp::GENERATOR_LENGTH != 1 || wow_srp::INTEGRITY_SALT_LENGTH != 16 {
         viol(report, "constants", json!({}), "a field-width constant differs from the protocol".into());
     }
     report.count("constant_checks", 2);
